@@ -173,7 +173,8 @@ def rule_c(prog, rep):
         tb = [base(x) for x in t if '@' not in x]
         head = [x for x in tb if x in ('sync', 'unlock', 'flush')][:3]
         if head != ['sync', 'unlock', 'flush']:
-            problems.append(f'start-up sequence {head}')
+            problems.append(f'start-up sequence {head}' + (' - a path reaches shutdown() (which flushes) before the initial sync: the empty '
+                            'start-up store would overwrite what the follower replicated earlier' if 'shutdown' in tb and 'sync' not in tb else ''))
         if 'shutdown' not in tb:
             problems.append('a normal exit without shutdown()')
     if not any('tick_flush*' in t for (ex, t, v) in paths):
